@@ -238,8 +238,9 @@ def s_stack_reversed(a, b, v):
 def s_clip_allclose(a, b, v):
     c = np.clip(a * 3 - 4, -2, 5)
     d = np.clip(b, 1, None)
+    e = np.clip(a, 0, np.asarray([3, 1, 4, 1, 5]) - 1)
     flags = [np.allclose(a, a + 1e-9), np.allclose(a, a + 1e-3), np.allclose(b, b * (1 + 1e-6)), bool(np.allclose(v, v))]
-    return np.hstack([c, d, np.array([1 if f else 0 for f in flags]), np.array([np.clip(7, -1, 3), np.clip(-7, -1, 3)])])
+    return np.hstack([c, d, e, np.array([1 if f else 0 for f in flags]), np.array([np.clip(7, -1, 3), np.clip(-7, -1, 3)])])
 
 
 def s_int_store_truncates(a, b, v):
